@@ -2,6 +2,7 @@ package c07
 
 import (
 	"bufio"
+	"crypto/tls"
 	"fmt"
 	"io"
 	"net"
@@ -12,6 +13,7 @@ import (
 	"strings"
 	"sync"
 	"sync/atomic"
+	"syscall"
 	"testing"
 	"time"
 
@@ -23,8 +25,25 @@ import (
 	"verif/harness/internal/vt"
 )
 
+// confPath is the Casketfile the registered loader reads; a SIGUSR1 reload
+// re-reads it exactly like the casket binary re-reads its -conf file.
+var confPath atomic.Value
+
+type fileLoader struct{}
+
+func (fileLoader) Load(serverType string) (casket.Input, error) {
+	p, _ := confPath.Load().(string)
+	b, err := os.ReadFile(p)
+	if err != nil {
+		return nil, err
+	}
+	return casket.CasketfileInput{Contents: b, Filepath: p, ServerTypeName: serverType}, nil
+}
+
 func TestMain(m *testing.M) {
 	vt.Property = "C07"
+	casket.RegisterCasketfileLoader("verif", fileLoader{})
+	casket.TrapSignals()
 	vt.Main(m)
 }
 
@@ -49,6 +68,7 @@ type Reload struct {
 	DelayMs int    `json:"delay_ms"`
 	Extra   bool   `json:"extra"` // the configuration also has the extra site (own port)
 	SizeKB  int    `json:"size_kb"`
+	Via     string `json:"via,omitempty"` // "" = Instance.Restart, "sigusr1" = rewrite the Casketfile and signal the process
 }
 
 type Case struct {
@@ -58,7 +78,8 @@ type Case struct {
 	Clients []Client `json:"clients"`
 	Reloads []Reload `json:"reloads"`
 	TailMs  int      `json:"tail_ms"`
-	GraceMs int      `json:"grace_ms"` // graceful drain timeout (-grace); 0 = the default 5 s
+	GraceMs int      `json:"grace_ms"`      // graceful drain timeout (-grace); 0 = the default 5 s
+	TLS     bool     `json:"tls,omitempty"` // every site is https:// with 'tls self_signed'; clients handshake on every fresh connection
 }
 
 var ports = []int{17001, 17002, 17003}
@@ -84,6 +105,10 @@ func text(c *Case, dir string, gen int, kind string, extra bool, sizeKB int) str
 		root := filepath.Join(dir, fmt.Sprintf("g%d", gen), fmt.Sprintf("s%d", idx))
 		os.MkdirAll(root, 0o755)
 		os.WriteFile(filepath.Join(root, "index.txt"), body(gen, idx, sizeKB), 0o644)
+		if c.TLS {
+			addr = strings.Replace(addr, "http://", "https://", 1)
+			inject = "\ttls self_signed\n" + inject
+		}
 		fmt.Fprintf(&sb, "%s {\n\troot %s\n\theader / X-Gen g%d\n%s}\n", addr, root, gen, inject)
 	}
 	if kind == "listen-first" {
@@ -133,13 +158,21 @@ func parseBody(b []byte) (gen, site int, ok bool) {
 
 // request makes one request on a fresh connection and validates the response
 // against the generation it claims to come from.
-func request(port int, host string, site int, style string, splitMs int, sizes map[int]int) (gen int, errText string) {
-	conn, err := net.DialTimeout("tcp", fmt.Sprintf("127.0.0.1:%d", port), 10*time.Second)
+func request(useTLS bool, port int, host string, site int, style string, splitMs int, sizes map[int]int) (gen int, errText string) {
+	tcp, err := net.DialTimeout("tcp", fmt.Sprintf("127.0.0.1:%d", port), 10*time.Second)
 	if err != nil {
 		return -1, "connect: " + err.Error()
 	}
-	defer conn.Close()
-	conn.SetDeadline(time.Now().Add(30 * time.Second))
+	defer tcp.Close()
+	tcp.SetDeadline(time.Now().Add(30 * time.Second))
+	conn := tcp
+	if useTLS {
+		tc := tls.Client(tcp, &tls.Config{InsecureSkipVerify: true, ServerName: host, NextProtos: []string{"http/1.1"}})
+		if err := tc.Handshake(); err != nil {
+			return -1, "TLS handshake: " + err.Error()
+		}
+		conn = tc
+	}
 	var hdr [][2]string
 	if style == "close" {
 		hdr = append(hdr, [2]string{"Connection", "close"})
@@ -197,6 +230,7 @@ type reloadRec struct {
 	err          string
 	extra        bool
 	prevValidGen int
+	via          string
 }
 
 var seq int64
@@ -221,7 +255,14 @@ func runCase(c *Case) (nontrivial bool, classes []string, err error) {
 		httpserver.GracefulTimeout = time.Duration(c.GraceMs) * time.Millisecond
 	}
 	defer func() { httpserver.GracefulTimeout = 5 * time.Second }()
-	inst, serr := srv.Start(text(c, dir, 0, "valid", c.Extra0, c.Size0), "")
+	conf := filepath.Join(dir, "Casketfile")
+	confPath.Store(conf)
+	os.WriteFile(conf, []byte(text(c, dir, 0, "valid", c.Extra0, c.Size0)), 0o644)
+	input, lerr2 := casket.LoadCasketfile("http") // as the binary does; remembers the loader for SIGUSR1
+	if lerr2 != nil {
+		return false, nil, fmt.Errorf("HARNESS: loading the Casketfile: %v", lerr2)
+	}
+	inst, serr := casket.Start(input)
 	if serr != nil {
 		return false, nil, fmt.Errorf("HARNESS: initial start: %v", serr)
 	}
@@ -230,7 +271,7 @@ func runCase(c *Case) (nontrivial bool, classes []string, err error) {
 	// sequential probe of every site of the configuration that should be live
 	probeAll := func(gen int, extra bool, when string) error {
 		for i, s := range c.Sites {
-			g, e := request(ports[s.Port], s.Host, i, "close", 0, sizes)
+			g, e := request(c.TLS, ports[s.Port], s.Host, i, "close", 0, sizes)
 			if e != "" {
 				return fmt.Errorf("%s: site %d (%s:%d): %s", when, i, s.Host, ports[s.Port], e)
 			}
@@ -239,7 +280,7 @@ func runCase(c *Case) (nontrivial bool, classes []string, err error) {
 			}
 		}
 		if extra {
-			g, e := request(extraPort, "extra.test", len(c.Sites), "close", 0, sizes)
+			g, e := request(c.TLS, extraPort, "extra.test", len(c.Sites), "close", 0, sizes)
 			if e != "" {
 				return fmt.Errorf("%s: the extra site: %s", when, e)
 			}
@@ -263,7 +304,7 @@ func runCase(c *Case) (nontrivial bool, classes []string, err error) {
 			s := c.Sites[cl.Site]
 			for n := 0; n < 600 && atomic.LoadInt32(&stop) == 0; n++ {
 				r := record{client: ci, site: cl.Site, start: time.Now()}
-				r.gen, r.err = request(ports[s.Port], s.Host, cl.Site, cl.Style, cl.SplitMs, sizes)
+				r.gen, r.err = request(c.TLS, ports[s.Port], s.Host, cl.Site, cl.Style, cl.SplitMs, sizes)
 				r.end = time.Now()
 				recs[ci] = append(recs[ci], r)
 				if cl.PauseUs > 0 {
@@ -280,9 +321,41 @@ func runCase(c *Case) (nontrivial bool, classes []string, err error) {
 		time.Sleep(time.Duration(r.DelayMs) * time.Millisecond)
 		gen := i + 1
 		t := text(c, dir, gen, r.Kind, r.Extra, r.SizeKB)
-		rr := reloadRec{gen: gen, kind: r.Kind, extra: r.Extra, prevValidGen: curGen}
+		rr := reloadRec{gen: gen, kind: r.Kind, extra: r.Extra, prevValidGen: curGen, via: r.Via}
 		rr.call = time.Now()
-		ni, rerr := inst.Restart(casket.CasketfileInput{Contents: []byte(t), Filepath: "Casketfile", ServerTypeName: "http"})
+		var ni *casket.Instance
+		var rerr error
+		if r.Via == "sigusr1" {
+			os.WriteFile(conf, []byte(t), 0o644)
+			off := len(srv.LogBuf.String())
+			rr.call = time.Now()
+			syscall.Kill(os.Getpid(), syscall.SIGUSR1)
+			ni, rerr = inst, fmt.Errorf("HARNESS: the SIGUSR1 reload neither completed nor failed within 20 s")
+			for d := time.Now().Add(20 * time.Second); time.Now().Before(d); time.Sleep(500 * time.Microsecond) {
+				l := srv.LogBuf.String()
+				if len(l) < off {
+					off = 0
+				}
+				l = l[off:]
+				if strings.Contains(l, "Reloading complete") {
+					rerr = nil
+					if is := casket.Instances(); len(is) > 0 {
+						ni = is[len(is)-1]
+					}
+					break
+				}
+				if i := strings.Index(l, "[ERROR] SIGUSR1"); i >= 0 {
+					rerr = fmt.Errorf("%s", strings.SplitN(l[i:], "\n", 2)[0])
+					break
+				}
+			}
+			if rerr != nil && strings.HasPrefix(rerr.Error(), "HARNESS") {
+				stepErr = rerr
+				break
+			}
+		} else {
+			ni, rerr = inst.Restart(casket.CasketfileInput{Contents: []byte(t), Filepath: conf, ServerTypeName: "http"})
+		}
 		rr.ret = time.Now()
 		rr.ok = rerr == nil
 		if rerr != nil {
@@ -375,6 +448,9 @@ func runCase(c *Case) (nontrivial bool, classes []string, err error) {
 	kinds := map[string]bool{}
 	for _, rl := range rls {
 		kinds["reload:"+rl.kind] = true
+		if rl.via != "" {
+			kinds["via:"+rl.via] = true
+		}
 	}
 	for k := range kinds {
 		classes = append(classes, k)
@@ -385,6 +461,9 @@ func runCase(c *Case) (nontrivial bool, classes []string, err error) {
 	}
 	if c.GraceMs > 0 {
 		classes = append(classes, "request-outlasts-drain-timeout")
+	}
+	if c.TLS {
+		classes = append(classes, "tls")
 	}
 	if len(bad) > 0 {
 		sort.Strings(bad)
@@ -435,6 +514,7 @@ func genCase(t *rapid.T) *Case {
 			SplitMs: rapid.SampledFrom([]int{0, 1, 3, 10, 30}).Draw(t, lb+"split"),
 		})
 	}
+	c.TLS = rapid.IntRange(0, 3).Draw(t, "tls") == 0
 	if rapid.IntRange(0, 3).Draw(t, "drain") == 0 {
 		// a short drain timeout and one or two clients whose requests outlast it
 		c.GraceMs = 150
@@ -452,6 +532,7 @@ func genCase(t *rapid.T) *Case {
 			DelayMs: rapid.SampledFrom([]int{0, 0, 1, 3, 10}).Draw(t, lb+"delay"),
 			Extra:   rapid.Bool().Draw(t, lb+"extra"),
 			SizeKB:  rapid.SampledFrom([]int{0, 1, 16, 200}).Draw(t, lb+"size"),
+			Via:     rapid.SampledFrom([]string{"", "", "sigusr1"}).Draw(t, lb+"via"),
 		})
 	}
 	return c
